@@ -4,6 +4,7 @@ import (
 	"bytes"
 	"fmt"
 	"io"
+	"os"
 	"runtime/debug"
 	"sync/atomic"
 	"syscall"
@@ -38,6 +39,8 @@ var (
 )
 
 const stallLimit = 40 * time.Second
+
+var traceFaults = os.Getenv("VERIF_TRACE_FAULTS") != ""
 
 func startC15Watchdog(rc *runCtx, res *RunResult) func() {
 	stop := make(chan struct{})
@@ -77,6 +80,11 @@ func startC15Watchdog(rc *runCtx, res *RunResult) func() {
 func tryDecode(ct *codecType, data []byte, plan simio.ReadPlan, byteReader bool, pts []s2.Point, cells []s2.Cell, what string) (out decodeOutcome) {
 	atomic.AddInt64(&c15Progress, 1)
 	c15Current.Store(what)
+	if traceFaults {
+		// replay mode: name the input before touching it, so that a fatal abort (which cannot be
+		// recovered and loses the trace) still says which damaged stream caused it
+		syscall.Write(2, []byte("\nVERIF-FAULT "+what+"\n"))
+	}
 	phase := "decode"
 	defer func() {
 		if x := recover(); x != nil {
